@@ -26,3 +26,9 @@ META["C09"] = {
     "note": "Stall timing is asserted one-sided (>= timeout) with generous upper bounds; zero-length Reads never block; codec stream decoders have no size limit by design.",
     "technique": "property-based round-trip and fault-injection testing (rapid)",
 }
+
+META["C18"] = {
+    "text": "Round-trip laws (proto<->Connect error, proto<->gRPC status, header list<->gRPC metadata/outgoing context/http.Header, percent-encoding with an independent decoder, strict codecs incl. unknown-field rejection for every wire type) checked on generated errors, header lists, byte strings and protoreflect-generated conformance messages. Exploration of unbounded input spaces by seeded generation with shrinking.",
+    "note": "Trusts connect-go/grpc-go/protobuf-go as pinned; in-place mutation of conversion inputs is not asserted; type-URL prefix normalisation is allowed.",
+    "technique": "property-based round-trip testing (rapid)",
+}
